@@ -8,7 +8,7 @@ use crate::alloc;
 use crate::common::*;
 use crate::gen::*;
 use crate::rng::{derive, Rng};
-use crate::simenv::{self, EnvScript, Envelope, Hooks, SimCore};
+use crate::simenv::{self, EnvScript, Envelope, Hooks};
 use crate::spec::*;
 use crate::statecode;
 use pushr::push::instructions::InstructionSet;
@@ -337,7 +337,7 @@ struct GrowthHooks {
 }
 
 impl Hooks for GrowthHooks {
-    fn post(&mut self, core: &mut SimCore, idx: usize, st: &mut PushState) {
+    fn post(&mut self, ev: u64, name: &str, st: &mut PushState) {
         if self.violation.is_some() {
             return;
         }
@@ -358,14 +358,15 @@ impl Hooks for GrowthHooks {
             }
         }
         self.max_seen = self.max_seen.max(worst);
-        let name = core.names[idx].clone();
+        let name = name.to_string();
+        let events = ev + 1;
         if worst > self.max_points {
             self.violation = Some(Violation {
                 property: "C15".into(),
                 class: "oracle:code-growth".into(),
                 site: format!("{}: an item on the {} stack exceeds max-points-in-program", name, where_),
-                detail: format!("after {} (event {}) an item of {} points is on the {} stack; max_points_in_program = {}", name, core.events, worst, where_, self.max_points),
-                at_event: core.events,
+                detail: format!("after {} (event {}) an item of {} points is on the {} stack; max_points_in_program = {}", name, events, worst, where_, self.max_points),
+                at_event: events,
             });
         } else {
             let mut big = 0usize;
@@ -386,8 +387,8 @@ impl Hooks for GrowthHooks {
                     property: "C15".into(),
                     class: "oracle:memory-growth".into(),
                     site: format!("{}: a single name or vector keeps doubling under the default limits", name),
-                    detail: format!("after {} (event {}) one item holds {} bytes; the run is {} steps into a budget of 1000", name, core.events, big, core.events),
-                    at_event: core.events,
+                    detail: format!("after {} (event {}) one item holds {} bytes; the run is {} steps into a budget of 1000", name, events, big, events),
+                    at_event: events,
                 });
             }
         }
